@@ -228,7 +228,8 @@ class Effects:
                 return [(name, ks[0] if ks else UNK)]
             if fq in FS_MUTATORS:
                 return [('FS_OTHER', fq, K.kind(args[0], fr) if args else UNK)]
-            if fq in ('subprocess.run', 'subprocess.call', 'subprocess.check_call', 'subprocess.check_output', 'subprocess.Popen'):
+            if fq in ('subprocess.run', 'subprocess.call', 'subprocess.check_call', 'subprocess.check_output', 'subprocess.Popen', 'os.system', 'os.popen',
+                      'subprocess.getoutput', 'subprocess.getstatusoutput') or fq.startswith(('os.exec', 'os.spawn', 'os.posix_spawn')):
                 return [('SUBPROCESS', args[0] if args else None)]
             if fq == 'sqlite3.connect':
                 return [('SQLITE_CONNECT', K.kind(args[0], fr) if args else UNK, id(call))]
